@@ -534,6 +534,6 @@ CLAIM = {
             "2-3 returns and must equal their textbook definitions (starting balance a peak, N returns in every denominator). The "
             "daily sample count and timing are decided by interpreting both time loops for concrete lengths / steps (incl. steps of "
             "one and several days). Streaks follow the chronological (closed_at) order of the trades, not their storage order; the memo of "
-            "Strategy.metrics is keyed on everything its value is computed from. Not decided: longer return series, degenerate conventions. max_drawdown / calmar are also interpreted on a 400-day decline (the peak since the start, however long ago).",
+            "Strategy.metrics is keyed on everything its value is computed from. Not decided: longer return series, degenerate conventions. max_drawdown / calmar are also interpreted on a 400-day decline (the peak since the start, however long ago). Effect analysis of the metrics module (R6: no memo keyed by a projection of the equity series).",
     "note": "Trusted: pandas/numpy model for the used operations; interpreter semantics.",
 }
